@@ -396,6 +396,18 @@ def rule_expsign(ctx, py):
             t = pyfe.src(v).replace(" ", "")
             if t in ("-%s[2]" % b, "-1*%s[2]" % b, "%s[2]*-1" % b, "-int(%s[2])" % b):
                 negs.append((node, cfg))
+            # the same decision as a conditional expression:  b[2] = -e if b[0] == "/" else e
+            if isinstance(v, ast.IfExp):
+                from .. import pya as _pya
+                at = set(_pya.atoms(v.test, True))
+                neg_body = isinstance(v.body, ast.UnaryOp) and isinstance(v.body.op, ast.USub) and \
+                    pyfe.src(v.body.operand) == pyfe.src(v.orelse)
+                neg_else = isinstance(v.orelse, ast.UnaryOp) and isinstance(v.orelse.op, ast.USub) and \
+                    pyfe.src(v.orelse.operand) == pyfe.src(v.body)
+                if neg_body:
+                    negs.append((node, set(cfg) | at))
+                elif neg_else:
+                    negs.append((node, set(cfg) | set(_pya.atoms(v.test, False))))
     from .. import pya
     pya.must_facts(lp, on_stmt=on) if False else None
     from .. import ir
